@@ -5,7 +5,10 @@
 # tested per run: read_program on random data, truncations and corruptions of the samples and of synthesised
 # ELF/PE/Mach-O/HEX/SREC files never raises, stays within time and memory limits, returns a format only for inputs
 # carrying its magic, and identifies every valid file as its own format; HEX/SREC garbage lines vs the complete line model.
+# Structured families (gen_structured): S-record files with arbitrary binary S0 header payloads (outcome fixed by the
+# independent validator fmtgen.srec_file_valid) and fat Mach-O files with every subset of arch offset/size fields damaged.
 import glob
+import itertools
 import json
 import multiprocessing as mp
 import os
@@ -33,8 +36,13 @@ class CaseTimeout(BaseException):
     pass
 
 
+_ARMED = [False]
+
+
 def _alarm(signum, frame):
-    raise CaseTimeout()
+    # the timer is periodic (see identify): a CaseTimeout that a bare `except:` of a parser swallows is raised again
+    if _ARMED[0]:
+        raise CaseTimeout()
 
 
 def magic_of(b):
@@ -76,18 +84,29 @@ def identify(b):
     from amoco.system.core import read_program
     r0 = resource.getrusage(resource.RUSAGE_SELF).ru_maxrss
     t0 = time.process_time()
-    signal.setitimer(signal.ITIMER_PROF, TIME_LIMIT + 4)
+    _ARMED[0] = True
+    signal.setitimer(signal.ITIMER_PROF, TIME_LIMIT + 4, 0.25)
     try:
-        p = read_program(b)
-        out = ("ok", type(p).__name__)
+        try:
+            p = read_program(b)
+            out = ("ok", type(p).__name__)
+        except CaseTimeout:
+            _ARMED[0] = False
+            out = ("timeout", "")
+        except MemoryError as x:
+            _ARMED[0] = False
+            out = ("exc", "MemoryError", site_of(x))
+        except BaseException as x:
+            _ARMED[0] = False
+            out = ("exc", type(x).__name__, site_of(x))
+        finally:
+            _ARMED[0] = False
+            signal.setitimer(signal.ITIMER_PROF, 0)
     except CaseTimeout:
-        out = ("timeout", "")
-    except MemoryError as x:
-        out = ("exc", "MemoryError", site_of(x))
-    except BaseException as x:
-        out = ("exc", type(x).__name__, site_of(x))
-    finally:
+        # a second tick between the first one and the disarming
+        _ARMED[0] = False
         signal.setitimer(signal.ITIMER_PROF, 0)
+        out = ("timeout", "")
     dt = time.process_time() - t0
     r1 = resource.getrusage(resource.RUSAGE_SELF).ru_maxrss
     return out, dt, (r1 - r0) / 1024.0
@@ -96,11 +115,13 @@ def identify(b):
 def hot_stage(b, after=3.0):
     """where read_program is after `after` seconds of CPU time: the parsing stage right below the constructor"""
     from amoco.system.core import read_program
-    signal.setitimer(signal.ITIMER_PROF, after)
+    _ARMED[0] = True
+    signal.setitimer(signal.ITIMER_PROF, after, 0.25)
     try:
         read_program(b)
         return "?"
     except CaseTimeout as x:
+        _ARMED[0] = False
         tb = [f for f in traceback.extract_tb(x.__traceback__) if "/amoco/" in f.filename]
         names = ["%s:%s" % (os.path.basename(f.filename), f.name) for f in tb]
         if "pe.py:loadsegment" in names:
@@ -114,6 +135,7 @@ def hot_stage(b, after=3.0):
     except BaseException:
         return "?"
     finally:
+        _ARMED[0] = False
         signal.setitimer(signal.ITIMER_PROF, 0)
 
 
@@ -121,8 +143,13 @@ def remeasure(b):
     """one input alone in a fresh worker: (outcome, CPU seconds, finding key)"""
     signal.signal(signal.SIGPROF, _alarm)
     resource.setrlimit(resource.RLIMIT_AS, (4 << 30, 4 << 30))
-    o, dt, jump = identify(b)
-    return o, dt, ("time|%s" % hot_stage(b)) if (o[0] == "timeout" or dt > TIME_LIMIT) else None
+    # CPU time on a shared machine only errs upwards (page faults of a deep recursion cost up to a millisecond each when
+    # memory is contended): the fastest of up to three runs counts
+    for attempt in range(3):
+        o, dt, jump = identify(b)
+        if not (o[0] == "timeout" or dt > TIME_LIMIT):
+            return o, dt, None
+    return o, dt, "time|%s" % hot_stage(b)
 
 
 def gen_inputs(seed, n, files):
@@ -216,14 +243,185 @@ def gen_inputs(seed, n, files):
                 yield "corrupt:" + kind, bytes(m[:len(b)]), None
 
 
+# A fat file whose arch entry designates the fat header again with a size that covers the whole file is parsed recursively
+# until the interpreter's recursion limit; every level parses the intact slices listed before that entry again.  With the
+# shipped samples (or the larger synthesised images) as slices this alone costs 3-8 s of CPU time on the unchanged tree
+# (reported, not yet triaged), so self-referencing values are only written into files made of tiny slices unless this is set.
+FAT_SELFREF_HEAVY = False
+SKIP_AFTER_TIMEOUTS = 2     # per worker: further fat inputs are skipped after that many fat inputs ran into the timer
+
+
+def srec_header_cases(rng, quick):
+    """S-record files whose S0 (header) record carries an arbitrary payload - the record layout puts no constraint on the
+    bytes of a header - valid, and with one later record damaged.  Expected outcome from the independent validator
+    FG.srec_file_valid: SREC for a valid file, the raw fallback otherwise."""
+    payloads = [("byte", bytes([v])) for v in range(256)] + [("empty", b"")]
+    for k in range(40 if quick else 600):
+        c = rng.random()
+        if c < 0.4:
+            # the documented layout mname[20] ver[2] rev[2] description[0-36]; version / revision are often binary
+            mname = bytes(rng.choice(b"abcdefghijklmnopqrstuvwxyz0123456789_-. ") for _ in range(rng.randrange(0, 21)))
+            pad = rng.choice([b" ", b"\0"])
+            ver = rng.choice([rng.randbytes(2), bytes([rng.randrange(0x80, 0x100), rng.randrange(256)]), b"01"])
+            rev = rng.choice([rng.randbytes(2), bytes([rng.randrange(256), rng.randrange(0x80, 0x100)]), b"\0\1"])
+            desc = rng.choice([b"", rng.randbytes(rng.randrange(0, 37)), bytes(rng.choice(b"abc xyz") for _ in range(rng.randrange(0, 37)))])
+            payloads.append(("layout", mname.ljust(20, pad) + ver + rev + desc))
+        elif c < 0.75:
+            payloads.append(("binary", rng.randbytes(rng.choice([1, 2, 3, 4, 8, 16, 32, rng.randrange(1, 253), 252]))))
+        elif c < 0.9:
+            # text in some encoding, complete or cut inside a multi-byte sequence
+            t = "".join(rng.choice("abé€ñü漢字𝄞 ") for _ in range(rng.randrange(1, 20)))
+            e = t.encode(rng.choice(["utf-8", "utf-8", "latin-1", "utf-16-le", "utf-16", "cp1252"]), "replace")
+            payloads.append(("text", e[:rng.randrange(1, len(e) + 1)][:252]))
+        else:
+            payloads.append(("fill", bytes([rng.choice([0, 0x20, 0x7F, 0x80, 0xC0, 0xE0, 0xF0, 0xF8, 0xFE, 0xFF])]) * rng.randrange(1, 253)))
+    for what, pl in payloads:
+        txt, recs, entry, lines = FG.gen_srec(rng)
+        lines = list(lines)
+        lines[0] = FG.srecline(0, rng.choice([0, 0, 0, rng.getrandbits(16)]), pl)
+        if rng.random() < 0.15:
+            # a second header record further down
+            lines.insert(rng.randrange(1, len(lines)), FG.srecline(0, 0, rng.randbytes(rng.randrange(0, 20))))
+        if rng.random() < 0.3:
+            lines = [l.lower().replace(b"s", b"S", 1) if rng.random() < 0.5 else l for l in lines]
+        eol = rng.choice([b"\n", b"\r\n"])
+        good = eol.join(lines) + rng.choice([eol, eol, b"", eol + eol])
+        if FG.srec_file_valid(good):
+            yield "srec-header:" + what, good, "SREC"
+        # one later line damaged
+        i = rng.randrange(1, len(lines))
+        l = bytearray(lines[i])
+        c = rng.random()
+        if c < 0.3:
+            j = len(l) - 1 - rng.randrange(2)
+            l[j] = rng.choice([x for x in b"0123456789ABCDEF" if bytes([x]).upper() != bytes([l[j]]).upper()])
+        elif c < 0.5:
+            l[rng.randrange(2, len(l))] = rng.choice(b"GZ:S")
+        elif c < 0.7:
+            del l[len(l) - rng.choice([1, 2, 3, 4]):]
+        elif c < 0.85:
+            cnt = int(bytes(l[2:4]), 16)
+            l[2:4] = b"%02X" % ((cnt + rng.choice([1, -1, 2])) & 255)
+        else:
+            l[1:2] = rng.choice([b"4", b"A", b"s", b"x"])
+        bad_lines = lines[:i] + [bytes(l)] + lines[i + 1:]
+        bad = eol.join(bad_lines) + eol
+        if not FG.srec_file_valid(bad):
+            yield "srec-header-damaged:" + what, bad, "shellcode"
+
+
+def fat_cases(rng, files, quick):
+    """universal (fat) Mach-O files of 1-4 thin slices: intact; every non-empty subset of the offset / size fields of the arch
+    table overwritten (all with 0 - an entry that designates the fat header again - and with boundary values); nfat_arch
+    varied; truncated.  Only intact files carry an expected format; all others must just be identified within the limits."""
+    thin = [b for f, b in files if b[:4] in (b"\xcf\xfa\xed\xfe", b"\xce\xfa\xed\xfe")]
+
+    def tiny(n, minimal=False):
+        return [FG.tiny_macho(rng, rng.random() < 0.5, minimal) for _ in range(n)]
+
+    def heavy(n):
+        return [rng.choice(thin) if thin and rng.random() < 0.5 else FG.SynthMachO(rng).image for _ in range(n)]
+
+    def bad_value(img, fields, n, j, selfref):
+        own_off, own_size = struct.unpack_from(">II", img, fields[j // 2][0])
+        L, tab = len(img), 8 + 20 * n
+        other = struct.unpack_from(">I", img, fields[rng.randrange(n)][0])[0]
+        if j % 2 == 0:
+            vs = [8, tab - 4, tab, own_off + 1, own_off - 1, other, L - 1, L, L + 1, 0x7FFFFFFF, 0x80000000, 0xFFFFFFFF, rng.getrandbits(32), rng.randrange(L)]
+            if selfref:
+                vs += [0, 0, 0]
+        else:
+            vs = [0, 1, 7, tab - 1, tab, own_size - 1, own_size + 1, L - own_off + 1, L, L + 1, 0x7FFFFFFF, 0xFFFFFFFF, rng.getrandbits(32), rng.randrange(L)]
+        return rng.choice(vs) & 0xFFFFFFFF
+
+    # intact files
+    for n in (1, 2, 3, 4):
+        for mk in (tiny, heavy):
+            for _ in range(1 if quick else 6):
+                img, fields = FG.fat_image(mk(n), rng.choice([2, 4, 12]) if mk is tiny else rng.choice([3, 12, 14]))
+                yield "fat-valid", img, "MachO"
+    # every subset of the offset / size fields, tiny slices
+    for rep in range(1 if quick else 8):
+        for n in (1, 2, 3, 4):
+            # (a self-referencing entry makes the parser descend to the recursion limit and parse the slices listed before
+            # it at every level: with 2-3 such slices they are kept minimal, so that this costs a fraction of a second)
+            img, fields = FG.fat_image(tiny(n, minimal=n >= 3), rng.choice([2, 4, 6]))
+            flat = [p for pair in fields for p in pair]
+            for mask in range(1, 1 << (2 * n)):
+                for mode in ("zero", "bad"):
+                    m = bytearray(img)
+                    for j in range(2 * n):
+                        if mask >> j & 1:
+                            struct.pack_into(">I", m, flat[j], 0 if mode == "zero" else bad_value(img, fields, n, j, True))
+                    yield "fat-fields", bytes(m), None
+    # larger slices (synthesised images and the shipped samples)
+    for rep in range(60 if quick else 1500):
+        n = rng.randrange(1, 5)
+        img, fields = FG.fat_image(heavy(n), rng.choice([3, 12, 12, 14]))
+        flat = [p for pair in fields for p in pair]
+        m = bytearray(img)
+        c = rng.random()
+        if c < 0.55:
+            mask = rng.randrange(1, 1 << (2 * n))
+            for j in range(2 * n):
+                if mask >> j & 1:
+                    struct.pack_into(">I", m, flat[j], bad_value(img, fields, n, j, FAT_SELFREF_HEAVY))
+            yield "fat-fields-large", bytes(m), None
+        elif c < 0.8:
+            struct.pack_into(">I", m, 4, rng.choice([0, 1, max(n - 1, 0), n + 1, 2 * n, 5, 255, 0x10000, 0x7FFFFFFF, 0xFFFFFFFF, rng.getrandbits(32)]))
+            yield "fat-nfat", bytes(m), None
+        else:
+            cuts = [rng.randrange(0, 8 + 20 * n + 1), rng.randrange(len(img))]
+            for a, z in fields:
+                o, sz = struct.unpack_from(">II", img, a)
+                cuts += [o - 1, o, o + 1, o + 28, o + 32, o + sz - 1]
+            yield "fat-trunc", img[:max(0, rng.choice(cuts))], None
+    # nfat_arch and truncations on tiny slices: every prefix of one file, nfat_arch with and without damaged fields
+    for n in ((2, 3) if quick else (1, 2, 3, 4)):
+        img, fields = FG.fat_image(tiny(n), 2)
+        for cut in range(len(img)):
+            yield "fat-trunc", img[:cut], None
+        flat = [p for pair in fields for p in pair]
+        for v in (0, 1, n - 1, n + 1, 2 * n, 255, 0x10000, 0x7FFFFFFF, 0x80000000, 0xFFFFFFFF):
+            for dmg in (False, True):
+                m = bytearray(img)
+                struct.pack_into(">I", m, 4, v)
+                if dmg:
+                    mask = rng.randrange(1, 1 << (2 * n))
+                    for j in range(2 * n):
+                        if mask >> j & 1:
+                            struct.pack_into(">I", m, flat[j], rng.choice([0, bad_value(img, fields, n, j, True)]))
+                yield "fat-nfat", bytes(m), None
+    # a slice that is itself a fat file (not a valid universal binary: no expectation)
+    for rep in range(4 if quick else 40):
+        inner, _ = FG.fat_image(tiny(rng.randrange(1, 3)), 2)
+        sl = tiny(rng.randrange(0, 3))
+        sl.insert(rng.randrange(len(sl) + 1), inner)
+        img, fields = FG.fat_image(sl, rng.choice([2, 4]))
+        yield "fat-nested", img, None
+
+
+def gen_structured(seed, files, quick):
+    """deterministic per seed; worker i takes the cases whose index is i modulo the number of workers"""
+    rng = random.Random(seed * 7919 + 20)
+    yield from srec_header_cases(rng, quick)
+    yield from fat_cases(rng, files, quick)
+
+
 def worker(args):
-    seed, n, files = args
+    seed, n, files, shard, nshards, base_seed, quick = args
     signal.signal(signal.SIGPROF, _alarm)
     resource.setrlimit(resource.RLIMIT_AS, (4 << 30, 4 << 30))
-    out = {"n": 0, "finds": {}, "hist": {}, "outcomes": {}, "valid": 0, "samples": []}
-    for tag, b, want in gen_inputs(seed, n, files):
-        out["n"] += 1
+    out = {"n": 0, "finds": {}, "hist": {}, "outcomes": {}, "valid": 0, "samples": [], "skipped": 0}
+    structured = (c for i, c in enumerate(gen_structured(base_seed, files, quick)) if i % nshards == shard)
+    timeouts = {}
+    for tag, b, want in itertools.chain(structured, gen_inputs(seed, n, files)):
         kind = tag.split(":")[0]
+        if kind.startswith("fat") and sum(v for (k, _), v in timeouts.items() if k.startswith("fat")) >= SKIP_AFTER_TIMEOUTS:
+            # already failing: do not spend 12 s on each further input of the kind
+            out["skipped"] += 1
+            continue
+        out["n"] += 1
         out["hist"][kind] = out["hist"].get(kind, 0) + 1
         o, dt, jump = identify(b)
         key = None
@@ -232,6 +430,8 @@ def worker(args):
             what = "read_program raised %s (at %s) on %s" % (o[1], o[2], tag)
         elif o[0] == "timeout" or dt > TIME_LIMIT:
             key = "time|%s" % hot_stage(b)
+            if dt > TIME_LIMIT + 3.5:
+                timeouts[(kind, key)] = timeouts.get((kind, key), 0) + 1
             what = "read_program used more than %.0f s of CPU time on %s (%d bytes) [%s, %.1f s]" % (TIME_LIMIT, tag, len(b), o[0], dt)
         elif jump > MEM_JUMP_MB:
             key = "memory|%s" % (o[1] if o[0] == "ok" else "?")
@@ -239,11 +439,15 @@ def worker(args):
         elif o[0] == "ok":
             name = o[1]
             out["outcomes"][name] = out["outcomes"].get(name, 0) + 1
-            if want is not None:
+            if want == "shellcode":
+                if name != want:
+                    key = "invalid-accepted|%s" % name
+                    what = "a file that starts like an S-record file but has a malformed record (%s) is identified as %s instead of the raw fallback" % (tag, name)
+            elif want is not None:
                 out["valid"] += 1
                 if name != want:
                     key = "cross-claim|%s-as-%s" % (want, name)
-                    what = "a valid %s file is identified as %s" % (want, name)
+                    what = "a valid %s file (%s) is identified as %s" % (want, tag, name)
             if key is None and name in MAGICS and name not in magic_of(b.lstrip() if name in ("HEX", "SREC") else b):
                 key = "magic|%s" % name
                 what = "%s recognised an input that does not carry its magic prefix (%s)" % (name, b[:8].hex())
@@ -334,7 +538,11 @@ def check(run):
     global MAGICS
     MAGICS = live_magics()
     run.cov["rule"] = ("random bytes; magic prefix + random bytes; truncations and 1-5 byte corruptions of the shipped samples; synthesised "
-                       "ELF / PE / Mach-O / HEX / SREC files valid, truncated, or with 1-4 fields set to boundary values; corrupted HEX / SREC lines; "
+                       "ELF / PE / Mach-O / HEX / SREC files valid, truncated, or with 1-4 fields set to boundary values; S-record files whose S0 header "
+                       "record carries any single byte / the mname-ver-rev layout with binary bytes / random binary / text in several encodings, "
+                       "valid and with one later record damaged (expected outcome from an independent file validator); fat Mach-O files of 1-4 "
+                       "slices (tiny and larger synthesised images, shipped samples) intact, with every non-empty subset of the arch offset / size "
+                       "fields set to 0 and to boundary values, nfat_arch varied, every prefix; corrupted HEX / SREC lines; "
                        "distinct by input bytes; every input counts as non-trivial when it passes at least one magic test")
     run.static_part()
     # regenerated obligation: magic prefixes are pairwise disjoint
@@ -378,7 +586,7 @@ def check(run):
             elif o[0] == "timeout" or dt > TIME_LIMIT:
                 run.violation("time|%s" % hot_stage(b), "corpus %s: read_program used %.1f s of CPU time on a %d-byte input" % (os.path.basename(cf), dt, len(b)), rep)
     per = 420 if quick else 9000
-    tasks = [(run.seed * 977 + i, per, files) for i in range(14)]
+    tasks = [(run.seed * 977 + i, per, files, i, 14, run.seed, quick) for i in range(14)]
     # the parent's heap (every ISA module is loaded) must not be traversed by the workers' garbage collector: after a
     # fork that copies every page and charges seconds of CPU time to whichever input triggers the collection
     import gc
@@ -395,6 +603,8 @@ def check(run):
         for k, v in r["outcomes"].items():
             run.cov.setdefault("identified_as", {})[k] = run.cov.setdefault("identified_as", {}).get(k, 0) + v
         run.cov["valid_files_identified"] = run.cov.get("valid_files_identified", 0) + r["valid"]
+        if r["skipped"]:
+            run.cov["fat_inputs_skipped_after_timeouts"] = run.cov.get("fat_inputs_skipped_after_timeouts", 0) + r["skipped"]
         for s in r["samples"]:
             run.sample(s, 3)
         for k, v in sorted(r["finds"].items()):
@@ -403,12 +613,17 @@ def check(run):
                 continue
             run.violation(k, v["what"], {"input": v["input"], "tag": v["tag"], "length": v["length"]}, found_input=v["input"] is not None)
     # CPU time measured inside a loaded 14-process pool is confirmed once more here, alone, before it is reported
-    for k, v in slow:
+    confirmed = set()
+    for k, v in sorted(slow, key=lambda kv: kv[1]["length"]):
+        if k in confirmed and not k.endswith("|?"):
+            # one confirmed input per stage is reported; the others of the same stage are not measured again
+            continue
         b = bytes.fromhex(v["input"])
         with mp.get_context("fork").Pool(1) as one:
             o, dt, k2 = one.apply(remeasure, (b,))
         run.cov["slow_inputs_remeasured"] = run.cov.get("slow_inputs_remeasured", 0) + 1
         if o[0] == "timeout" or dt > TIME_LIMIT:
+            confirmed.add(k)
             run.violation(k2, v["what"] + " (confirmed alone: %.1f s)" % dt, {"input": v["input"], "tag": v["tag"], "length": v["length"]})
     line_part(run, quick)
     run.cov["limits"] = {"seconds": TIME_LIMIT, "rss_jump_mb": MEM_JUMP_MB, "address_space_gb": 4}
